@@ -439,8 +439,8 @@ Proof.
       * apply NoDup_snoc; [exact Hnd|]. intro Hin. apply filter_In in Hin. exact (existsb_eqb_false _ _ Hf5 (proj1 Hin)).
       * intro Hin. apply in_app_or in Hin. destruct Hin as [Hin|[Heq|[]]]; [exact (Hto Hin)|].
         rewrite Heq, String.eqb_refl in Hf2. discriminate Hf2.
-    + assert (Hfe : filter nonanon [anon; np_var (h_to h)] = [np_var (h_to h)])
-        by (cbn [filter]; unfold nonanon; rewrite Hf3, String.eqb_refl; reflexivity).
+    + assert (Hfe : filter nonanon ["_anon_edge"%string; np_var (h_to h)] = [np_var (h_to h)])
+        by (cbn [filter]; unfold nonanon; rewrite Hf3; reflexivity).
       rewrite Hfe. apply NoDup_snoc; assumption.
   - intros r' Hr'. cbn [rows mkT] in Hr'. apply in_flat_map in Hr'. destruct Hr' as (r & Hin & Hr').
     apply in_map_iff in Hr'. destruct Hr' as (te & <- & _). destruct (Hr r Hin) as [Hl He]. split.
